@@ -19,15 +19,29 @@
      - wf_ty holds of every root of the regenerated NGAP schema (vm_compute), hence [c14_decode_total].
    Hypotheses on the input: every element of the byte string is an octet (< 256) and len < 2^32.
 
-   TODO-PARTIAL (stated in full):
-     decode_alloc_bounded :
-       forall ..., unmarshal_alloc (dec_fuel t) t pd bs <= depth * 65535 * maxelem + 8 * len bs * maxelem
+   Allocation (Proofs/AperTotalAlloc.v), in terms of the model's reflect.MakeSlice counter [unmarshal_alloc]:
+     - proved for every well-formed type whose list elements consume input ([cons_ok], decidable):
+         a successful parseField reserves at most  lcoef t  octets per input bit it consumed (a completed list has
+         parsed one element, hence at least one bit, per slot it reserved);
+         a failing one at most  chain t + lcoef t * (bits left)  where chain t is the worst sum, along one path of
+         the type, of  count_ub p * sizeof(elem)  (count_ub: the largest count the <=16-bit / one-octet count field
+         can produce, independent of the input);
+     - computed over the regenerated schema (vm_compute): cons_ok holds of every root, max chain = 16 252 872 octets
+       (NGAPPDU: PWSCancelResponseIEs 65535 x 56 -> TAICancelledEUTRAItem 65536 x 88 -> CancelledCellsInTAIEUTRAItem
+       65536 x 80 -> EUTRACGIExtIEs 65536 x 24), max lcoef = 304 octets per bit;
+     - hence [c14_decode_alloc_bounded]: alloc <= 16 252 872 + 2432 * |bs| for every root, input and fuel.
+       (So "a few MiB" of the property text is 15.5 MiB + 2.4 KiB per input octet; c14_overclaim_example shows a
+       7-octet input that reserves 3.67 MB, reproduced by the implementation.)
+
+   TODO-PARTIAL: the time bound (steps <= poly(schema) * (|bs| + 1)) is not stated: the model has no step counter.
+     What is proved instead: all loops of the model are structural or on fuel that is shown sufficient, and the
+     number of list elements parsed is bounded by the same accounting (every element consumes a bit or fails).
      On every check the streams ngap-malformed and prim-malformed run the real decoder and the
      model on every prefix, bit/byte corruptions, splices and random octets: same value | same error code, no panic,
      allocation and time within the limits. *)
 From Coq Require Import NArith ZArith List Bool String.
 Require Import GoSlice AperCommon AperEnc AperDec NgapSchema AperCheck AperSchemaProofs AperDecProofs.
-Require Import AperTotalPrim AperTotalField AperTotalNgap.
+Require Import AperTotalPrim AperTotalField AperTotalAlloc AperTotalNgap.
 Import ListNotations.
 Open Scope N_scope.
 
@@ -142,6 +156,45 @@ Theorem c14_decode_total :
 Proof. exact ngap_decode_total. Qed.
 Print Assumptions c14_decode_total.
 
+(* ---- allocation *)
+(* parseField: octets reserved vs. input consumed (success) / input left plus the schema's worst over-claim (failure) *)
+Theorem c14_parseField_alloc :
+  forall fuel t p s, wf_ty t (psize_ok p) = true -> cons_ok t p = true -> dinv s -> octs s ->
+    match fst (parseField fuel t p s) with
+    | Ok (v, s') => adv s s' /\ (consumes t p = true -> pos s + 1 <= pos s')
+                    /\ snd (parseField fuel t p s) <= lcoef t * (pos s' - pos s)
+    | _ => snd (parseField fuel t p s) <= chain t (count_ub p) + lcoef t * (8 * len (d_bytes s) - pos s)
+    end.
+Proof. exact parseField_alloc. Qed.
+Print Assumptions c14_parseField_alloc.
+
+Theorem c14_unmarshal_alloc_bound :
+  forall fuel t p bs, wf_ty t (psize_ok p) = true -> cons_ok t p = true ->
+    Forall (fun b => b < 256) bs -> len bs < 4294967296 ->
+    unmarshal_alloc fuel t p bs <= chain t (count_ub p) + lcoef t * (8 * len bs).
+Proof. exact unmarshal_alloc_bound. Qed.
+Print Assumptions c14_unmarshal_alloc_bound.
+
+(* the schema-side facts, evaluated *)
+Theorem c14_ngap_lists_consume :
+  forallb (fun r : string * ty * params * params => let '(_, t, _, pd) := r in cons_ok t pd) ngap_roots_full = true.
+Proof. exact ngap_roots_cons. Qed.
+Print Assumptions c14_ngap_lists_consume.
+Theorem c14_ngap_alloc_consts :
+  forallb (fun r : string * ty * params * params =>
+             let '(_, t, _, pd) := r in (chain t (count_ub pd) <=? 16252872) && (lcoef t <=? 304)) ngap_roots_full = true.
+Proof. exact ngap_alloc_consts. Qed.
+Print Assumptions c14_ngap_alloc_consts.
+
+(* NGAP: whatever the counts and lengths inside the input claim, one decoding call reserves at most 15.5 MiB plus
+   2432 octets per input octet *)
+Theorem c14_decode_alloc_bounded :
+  forall root t pe pd bs fuel, In (root, t, pe, pd) ngap_roots_full ->
+    Forall (fun b => b < 256) bs -> len bs < 4294967296 ->
+    unmarshal_alloc fuel t pd bs <= 16252872 + 2432 * len bs.
+Proof. exact ngap_decode_alloc_bounded. Qed.
+Print Assumptions c14_decode_alloc_bounded.
+
 (* constants of the schema used by the bounds *)
 Theorem c14_root_depth_bound : forallb (fun r => let '(_, t, _, _) := r in Nat.leb (ty_depth t) max_root_depth) ngap_roots_full = true.
 Proof. exact root_depth_bound. Qed.
@@ -170,3 +223,17 @@ Proof. unfold size_ok. split; split; reflexivity || discriminate. Qed.
 (* a (non-NGAP) tag with a negative SIZE lower bound does make the library slice out of range: pd.bytes[1:0] *)
 Example c14_negative_lb_panics : fst (parseOctetString (mkdst [0] 0 0) false (Some (-1)%Z) None) = Panic P_SLICE.
 Proof. vm_compute. reflexivity. Qed.
+(* over-claiming is real: SuccessfulOutcome / PWSCancel with an IE count of 65535 and nothing behind it reserves
+   65535 * 56 octets before failing (implementation: TotalAlloc delta 3 702 784 on the same input) *)
+Example c14_overclaim_example :
+  unmarshal_alloc (dec_fuel (root_ty "NGAPPDU")) (root_ty "NGAPPDU") (root_pdec "NGAPPDU") [32;32;0;3;0;255;255] = 3669960
+  /\ unmarshal (dec_fuel (root_ty "NGAPPDU")) (root_ty "NGAPPDU") (root_pdec "NGAPPDU") [32;32;0;3;0;255;255] = Err E_TRUNCATED.
+Proof. vm_compute. split; reflexivity. Qed.
+(* the constant of c14_decode_alloc_bounded is attained: this 33-octet input (SuccessfulOutcome / PWSCancel, four nested
+   lists each claiming the largest count its field can carry, then end of input) reserves exactly the worst chain
+   (implementation on the same input: error "sequence truncated", TotalAlloc delta 16 340 848) *)
+Example c14_worst_chain_attained :
+  let inp := [32;32;0;29;0;255;255;0;12;0;22;32;255;255;0;0;0;0;0;0;0;255;255;16;0;0;0;0;0;0;0;255;255] in
+  unmarshal_alloc (dec_fuel (root_ty "NGAPPDU")) (root_ty "NGAPPDU") (root_pdec "NGAPPDU") inp = 16252872
+  /\ unmarshal (dec_fuel (root_ty "NGAPPDU")) (root_ty "NGAPPDU") (root_pdec "NGAPPDU") inp = Err E_TRUNCATED.
+Proof. vm_compute. split; reflexivity. Qed.
